@@ -106,7 +106,8 @@ def _absterm(v):
 
 def np_abs(x):
     if isinstance(x, MaskedArray):
-        return MaskedArray(_new([_absterm(v) for v in x.data.cells()], x.shape, x.kind), None if x._mask is None else x._mask.copy(), x._fill)
+        return MaskedArray(_new([_absterm(v) for v in x.data.cells()], x.shape, x.kind),
+                           x._mask if x._mask is not None else _new([S._F()] * x.size, x.shape, 'b'), x._fill)      # mask shared, as numpy
     if isinstance(x, ndarray):
         return _new([_absterm(v) for v in x.cells()], x.shape, x.kind)
     if isinstance(x, SymNum):
@@ -787,7 +788,7 @@ def apply():
     M.ones_like = lambda a: ma_ones(a.shape, a.kind)
     M.stack, M.vstack, M.concatenate = ma_stack, ma_vstack, ma_concatenate
     M.compressed = ma_compressed
-    M.squeeze = lambda a, axis=None: a.squeeze()
+    M.squeeze = lambda a, axis=None: (a.squeeze() if isinstance(a, MaskedArray) else MaskedArray(_as_nd(a).squeeze(), None))
     M.ravel = lambda a: a.ravel()
     M.reshape = lambda a, s_: a.reshape(s_)
     M.transpose = lambda a, axes=None: a.transpose(*([axes] if axes is not None else []))
